@@ -17,6 +17,7 @@ func ruleC19(prog *Program, rep *Report) {
 		return
 	}
 	info := pk.TypesInfo
+	ruleCallOrder(prog, rep, 2, "alt")
 	ruleNumFamily(prog, rep, 4, "alt") // Diff, Match and the widening helpers treat every integer width alike
 	// the shared implementation: the unexported function both Diff and Compare call
 	var impl *types.Func
